@@ -35,6 +35,8 @@ CLAIMED["C03"] = ("other", "Join-kind table agreement parser/compiler/documentat
          "table agreement + path facts on the derived join-source grammar + AST shape rules")
 CLAIMED["C08"] = ("other", "Pairing rule for every split range (closed by endSplit, an explicit exhaustion test or a recorded error on every path), interprocedural not-found hygiene (a not-found error that can reach an isNotFound decision was produced before any token was consumed), and no production accepts the lexer's error token. 'Re-printing the tree gives back the token sequence' for all inputs is not decided.", "DESIGN.md §3 C08",
          "typestate/pairing over an AST abstract interpreter + bottom-up production summaries to a fixpoint")
+CLAIMED["C12"] = ("other", "Progress witnesses for every unbounded loop on every abstract back-edge path (net successful cursor reads, with interprocedural consumption summaries), cursor discipline, acyclicity of same-node recursion in every call-graph SCC, deadness of explicit panics and discharge of every index/slice expression by guard facts or a reviewed row. Time bounds, stack depth and general nil-safety are not decided.", "DESIGN.md §3 C12",
+         "termination witnesses and bounds-obligation discharge over an AST abstract interpreter + call-graph SCC analysis")
 NA = {}
 def main():
     props = [json.loads(l) for l in open('/verif/properties.jsonl')]
